@@ -106,3 +106,42 @@ pub fn c08_value_shift_paired_sorted() {
     check!(v != 0, "a real hand has a value");
     cover!(r[0] == r[1] && r[2] == r[3], "two pair");
 }
+
+/// six/seven-card value under the three non-trivial shifts (S5, shift variant): the container must shift every
+/// slot uniformly and the selection logic must not depend on suits
+#[cfg_attr(kani, kani::proof)]
+#[cfg_attr(kani, kani::unwind(23))]
+#[cfg_attr(kani, kani::stub(<ckc_rs::cards::five::Five as ckc_rs::cards::HandRanker>::hand_rank_value_and_hand, crate::s5::stub_five_shift))]
+pub fn c08_value_shift_seven() {
+    let w = super::c02::any_seven();
+    crate::s5::install(&w, true);
+    let h = Seven::from(w);
+    let v = h.hand_rank_value();
+    let s1 = h.shift_suit();
+    let s2 = s1.shift_suit();
+    let s3 = s2.shift_suit();
+    check!(s1.hand_rank_value() == v, "seven: one shift keeps the value");
+    check!(s2.hand_rank_value() == v, "seven: two shifts keep the value");
+    check!(s3.hand_rank_value() == v, "seven: three shifts keep the value");
+    check!(crate::sym::same(s3.shift_suit().to_arr(), w), "seven: four shifts restore the hand");
+    cover!(v >= 1, "a ranked hand");
+}
+
+#[cfg_attr(kani, kani::proof)]
+#[cfg_attr(kani, kani::unwind(14))]
+#[cfg_attr(kani, kani::stub(<ckc_rs::cards::five::Five as ckc_rs::cards::HandRanker>::hand_rank_value_and_hand, crate::s5::stub_five_shift))]
+pub fn c08_value_shift_six() {
+    let w7 = super::c02::any_seven();
+    let w = [w7[0], w7[1], w7[2], w7[3], w7[4], w7[5]];
+    crate::s5::install(&w, true);
+    let h = Six::from(w);
+    let v = h.hand_rank_value();
+    let s1 = h.shift_suit();
+    let s2 = s1.shift_suit();
+    let s3 = s2.shift_suit();
+    check!(s1.hand_rank_value() == v, "six: one shift keeps the value");
+    check!(s2.hand_rank_value() == v, "six: two shifts keep the value");
+    check!(s3.hand_rank_value() == v, "six: three shifts keep the value");
+    check!(crate::sym::same(s3.shift_suit().to_arr(), w), "six: four shifts restore the hand");
+    cover!(v >= 1, "a ranked hand");
+}
